@@ -719,7 +719,11 @@ impl Fiber {
     let fun = frame.fun();
     let instructions = fun.chunk().instructions();
 
-    let stack_top = frame.stack_start().add(exception_handler.slot_depth());
+    // the compiler counts the handler's slot depth from the callee slot
+    // without the arguments that sit between it and the locals
+    let stack_top = frame
+      .stack_start()
+      .add(exception_handler.slot_depth() + fun.parameter_count() as usize);
 
     // set the current ip frame and stack pointer
     frame.store_ip(&instructions[exception_handler.offset()] as *const u8);
